@@ -46,12 +46,12 @@ other than the `floor` of the initial-state processing and of the interval sampl
 theorem no_tolerances : toleranceTokens = [] := by decide +kernel
 
 /-- the complete list of casts: the two conversions above, the element-wise `VectorCast` helper, the Poisson draw
-(an `int` by `std::poisson_distribution<int>`, widened to `double` at once), and the two container sizes -/
+(a `long long` by `std::poisson_distribution<long long>` — `<int>` never returns for a mean beyond the range of `int`, fix30 — widened to `double` at once), and the two container sizes -/
 theorem all_casts :
     casts =
       [("engine.cpp", "int", "dtot_species[s]"), ("engine.cpp", "T_out", "a[i]"),
-       ("engine.cpp", "double", "std::poisson_distribution<int>(mesh_state[i])(rng)"),
-       ("engine.cpp", "double", "std::poisson_distribution<int>(mesh_state[i])(rng)"),
+       ("engine.cpp", "double", "std::poisson_distribution<longlong>(mesh_state[i])(rng)"),
+       ("engine.cpp", "double", "std::poisson_distribution<longlong>(mesh_state[i])(rng)"),
        ("engine.cpp", "int",
         "std::chrono::duration_cast<std::chrono::milliseconds>(std::chrono::system_clock::now()-t0).count()"),
        ("SimulationAlgorithm3DBase.hpp", "int", "sampled_t.size()"),
